@@ -4,7 +4,7 @@
    Statement language (impl_lookup, spec_lookup, ...): Image/ViewEq.v.  Witness images: Image/Witnesses.v. *)
 From Coq Require Import List NArith ZArith Bool String.
 From Scalibr Require Import Lib.SortSearch Image.PathTree Image.PathTreeProofs Image.Fill Image.Overlay
-  Image.ImageCases Image.ViewEq Image.Witnesses Image.FillProofs.
+  Image.ImageCases Image.ViewEq Image.Witnesses Image.FillProofs Image.Bounded Image.BoundedProofs.
 Import ListNotations.
 Open Scope Z_scope.
 
@@ -50,19 +50,72 @@ Theorem pathtree_refines_map : forall (V : Type) (t : trie V), wf t ->
 Proof. exact pathtree_refines_map_lemma. Qed.
 Print Assumptions pathtree_refines_map.
 
-(* ------------------------------------------------------------------ 2. the sentence as written is refuted *)
+(* ------------------------------------------------------------------ 2. the positive statement *)
+(* Full statement (ViewEq.view_eq_overlay_on_D_statement): for every image and config in D, every view
+   i and every path p, the implementation's view agrees with the OCI overlay on kind, permission bits,
+   size, introducing layer, link destination, content and directory listing.
+   NOT proved in general.  Proved of it:
+     - view_eq_overlay_on_D_bounded_partial: the statement (lookups on the paths a, b, a/a, a/b, a/a/a,
+       a/c, c and listings of the root and of every directory among them) for EVERY image of the two
+       small-scope families of Bounded.v (273 x 273 two-layer images with <= 2 members per layer;
+       26^3 three-layer images with <= 1 member per layer), checked inside Coq by vm_compute; the same
+       up to directory permission bits / origin on the larger domain D_weak (implicit parents);
+     - the structural lemmas below (all images, all sizes), which are the induction steps a general
+       proof needs: the fill touches each chain layer independently (fill_is_per_chain_layer), each
+       step is a map insert unless the path has a value or an ancestor hides it (fill_step_refines_map,
+       in_whiteout_dir_characterised), and whiteouts are never exposed (whiteouts_hidden).
+   Missing for the general theorem: the induction over layers (newest first) that turns these steps
+   into "view i (p) = newest member at p among layers <= i that no newer destructive member hides", and
+   the matching characterisation of the spec fold (oldest first). *)
+
+Theorem view_eq_overlay_on_D_bounded_partial :
+  (forall l0 l1, In l0 old_layers -> In l1 new_layers ->
+     (D cfg_default (img [l0; l1]) = true -> agree_everywhere cfg_default (img [l0; l1]) = true) /\
+     (D_weak cfg_default (img [l0; l1]) = true -> agree_weakly cfg_default (img [l0; l1]) = true)) /\
+  (forall ls, In ls layers3 ->
+     (D cfg_default (img ls) = true -> agree_everywhere cfg_default (img ls) = true) /\
+     (D_weak cfg_default (img ls) = true -> agree_weakly cfg_default (img ls) = true)).
+Proof. exact (conj bounded_2x2_lemma bounded_3x1_lemma). Qed.
+Print Assumptions view_eq_overlay_on_D_bounded_partial.
+
+(* the enumeration is not vacuous: > 500 of the 3x1 images lie in D, > 5000 in D_weak *)
+Example bounded_families_meet_D :
+  Nat.ltb 500 (fst (count_in_D layers3)) = true /\ Nat.ltb 5000 (snd (count_in_D layers3)) = true.
+Proof. exact bounded_counts. Qed.
+
+Theorem fill_is_per_chain_layer : forall i vsegs n cs k,
+  nth k (fill_from i vsegs n cs) empty_trie =
+  if Nat.leb i k then (if Nat.ltb k (List.length cs) then fill_one vsegs n (nth k cs empty_trie) else empty_trie)
+  else nth k cs empty_trie.
+Proof. exact fill_from_nth. Qed.
+Print Assumptions fill_is_per_chain_layer.
+
+Theorem fill_step_refines_map : forall vsegs n t sg,
+  path_segs (fn_vpath n) = Some sg -> sg <> [] ->
+  forall q, node_at (fill_one vsegs n t) q =
+    match get_segs sg t with
+    | Some _ => node_at t q
+    | None => if in_whiteout_dir t vsegs then node_at t q else insert_map (node_at t) sg n q
+    end.
+Proof. exact fill_one_refines. Qed.
+Print Assumptions fill_step_refines_map.
+
+Theorem in_whiteout_dir_characterised : forall t ancs,
+  in_whiteout_go t ancs = true <->
+  exists a n, In a ancs /\ get_segs a t = Some n /\ (fn_wh n = true \/ fn_is_dir n = false).
+Proof. exact in_whiteout_go_spec. Qed.
+Print Assumptions in_whiteout_dir_characterised.
+
+Theorem whiteouts_hidden :
+  (forall t depth p name mode size, stat t depth p = SOk name mode size ->
+     exists n, lookup_resolved t depth p = LNode n /\ fn_wh n = false) /\
+  (forall t vp l, list_dir t vp = Some l -> forall n, In n l -> fn_wh n = false).
+Proof. exact (conj stat_hides_whiteouts list_dir_hides_whiteouts). Qed.
+Print Assumptions whiteouts_hidden.
+
+(* ------------------------------------------------------------------ 3. the sentence as written is refuted *)
 (* leaks cfg im i p : p is visible in the implementation's view i but absent from the OCI overlay;
    lost: the other way round; differs: present in both with different attributes. *)
-
-Theorem deep_whiteout_leaks_refuted : leaks cfg_default w_deep_whiteout 1 (path "a/b/c").
-Proof. exact deep_whiteout_leaks_lemma. Qed.
-Print Assumptions deep_whiteout_leaks_refuted.
-
-Theorem dir_replaced_by_file_leaks_refuted :
-  leaks cfg_default w_dir_to_file 1 (path "a/b") /\
-  (exists st, load cfg_default w_dir_to_file = Some st /\ impl_listing st 1 (path "a") = Some [bytes "b"]).
-Proof. exact dir_replaced_by_file_leaks_lemma. Qed.
-Print Assumptions dir_replaced_by_file_leaks_refuted.
 
 Theorem opaque_whiteout_ignored_refuted : leaks cfg_default w_opaque 1 (path "a/b").
 Proof. exact opaque_whiteout_ignored_lemma. Qed.
@@ -105,14 +158,6 @@ Theorem requirer_deletes_content_of_earlier_views_refuted :
 Proof. exact requirer_deletes_content_of_earlier_views_lemma. Qed.
 Print Assumptions requirer_deletes_content_of_earlier_views_refuted.
 
-Theorem size_limit_boundary_refuted : lost cfg_max4 w_size_boundary 0 (path "f").
-Proof. exact size_limit_boundary_lemma. Qed.
-Print Assumptions size_limit_boundary_refuted.
-
-Theorem duplicate_member_first_wins_refuted : differs cfg_default w_duplicate 0 (path "a").
-Proof. exact duplicate_member_first_wins_lemma. Qed.
-Print Assumptions duplicate_member_first_wins_refuted.
-
 Theorem prune_marking_order_dependent_refuted :
   exists st, load_unpruned cfg_order w_order = Some st /\
     load_order_sensitive cfg_order w_order = true /\
@@ -121,7 +166,28 @@ Theorem prune_marking_order_dependent_refuted :
 Proof. exact prune_marking_order_dependent_lemma. Qed.
 Print Assumptions prune_marking_order_dependent_refuted.
 
-(* ------------------------------------------------------------------ 3. non-vacuity of the domain *)
+(* ------------------------------------------------------------------ 4. non-vacuity of the domain, regression examples *)
+(* the witnesses of the two defects repaired in /repo (85791d6b, 1c13035d) now agree with the overlay *)
+Example deep_whiteout_hidden :
+  spec_lookup cfg_default w_deep_whiteout 1 (path "a/b/c") = None /\
+  forallb (fun p => agree_at cfg_default w_deep_whiteout 1 (path p)) ["a"; "a/b"; "a/b/c"]%string = true /\
+  agree_at cfg_default w_deep_whiteout 0 (path "a/b/c") = true.
+Proof. exact deep_whiteout_hidden_lemma. Qed.
+
+Example dir_replaced_by_file_hidden :
+  spec_lookup cfg_default w_dir_to_file 1 (path "a/b") = None /\
+  forallb (fun p => agree_at cfg_default w_dir_to_file 1 (path p)) ["a"; "a/b"]%string = true /\
+  (exists st, load cfg_default w_dir_to_file = Some st /\ impl_listing st 1 (path "a") = Some []).
+Proof. exact dir_replaced_by_file_hidden_lemma. Qed.
+
+(* a file of exactly MaxFileBytes bytes is exposed by neither side (the contract C10 states) *)
+Example size_limit_boundary_agrees :
+  spec_lookup cfg_max4 w_size_boundary 0 (path "f") = None /\
+  agree_at cfg_max4 w_size_boundary 0 (path "f") = true /\
+  spec_lookup cfg_max4 w_size_boundary 0 (path "g") <> None /\
+  agree_at cfg_max4 w_size_boundary 0 (path "g") = true.
+Proof. exact size_limit_boundary_agrees_lemma. Qed.
+
 Example good_image_in_domain : D cfg_default w_good = true.
 Proof. exact good_image_in_D. Qed.
 
